@@ -61,7 +61,7 @@ class Result:
 
 
 class Sched:
-    def __init__(self, fns, schedule, probe=None, step_timeout=60.0, total_timeout=240.0, keep_trace=False):
+    def __init__(self, fns, schedule, probe=None, step_timeout=60.0, total_timeout=240.0, keep_trace=False, lines=False):
         self.fns = list(fns)
         self.n = len(self.fns)
         self.schedule = [(int(t), int(k)) for t, k in schedule]
@@ -77,6 +77,7 @@ class Sched:
         self.windows = [dict() for _ in self.fns]  # tid -> {kind: depth}
         self.abort = False
         self.budget = 0  # yield points the running thread may still pass before it parks
+        self.lines = bool(lines)  # also yield at every source line of a pandera frame (finer than call/return)
         self.keep_trace = keep_trace
         self.trace = [] if keep_trace else None
         self.seen_kinds = set()
@@ -120,6 +121,10 @@ class Sched:
 
         def make_local(kind, gen_kind):
             def local(frame, event, arg):
+                if event == "line" and self.lines:
+                    if state["import_depth"] <= 0:
+                        self._yield(tid, "line")
+                    return local
                 if event != "return":
                     return local
                 name = frame.f_code.co_name
@@ -154,7 +159,7 @@ class Sched:
             fn = co.co_filename
             if not fn.startswith(prefix):
                 return None
-            frame.f_trace_lines = False
+            frame.f_trace_lines = self.lines
             rel = fn[plen:]
             key = (rel, co.co_name)
             gen_kind = WINDOW_GENERATORS.get(key)
